@@ -745,6 +745,18 @@ example : CoreSheet.inFragment
      mkRow "d" "send_message" [("b", "")] (some "D")] = true := by
   decide +kernel
 
+/-- the clauses about merged rows restrict nothing where no row is merged: the fused reading of such
+a sheet is its reference reading, and `chainsOk` holds by itself (so on sheets without node names the
+fragment is given by the conditions on rows, edges and `no_op` rows alone) -/
+theorem merged_row_clauses_trivial_without_merged_rows (rows : List CoreSheet.CRow)
+    (h : ∀ c ∈ rows, (c.merged && CoreSheet.isNamedAct c) = false) :
+    CoreSheet.pass1F rows = RefFlow.pass1 (rows.map CoreSheet.toRRow) ∧
+    ∀ out, RefFlow.pass1 (rows.map CoreSheet.toRRow) = .ok out → CoreSheet.chainsOk rows out out = true :=
+  ⟨CoreSheet.pass1F_unmerged rows h, fun out hp => CoreSheet.chainsOk_unmerged rows h out hp⟩
+
+/-- non-vacuity: the rows of `exRows` (marked) are such a sheet -/
+example : ∀ c ∈ CoreSheet.annotate exRows, (c.merged && CoreSheet.isNamedAct c) = false := by decide +kernel
+
 /-- T1: the tests without argument of the reference interpretation are the source's
 `RouterCase.NO_ARGS_TESTS` (re-extracted on every run). -/
 theorem tables_agree : Gen.routerNoArgsTests = RefFlow.noArgsTests := by decide
